@@ -44,6 +44,11 @@ def plan(tier, seed):
     for b in ('fortran', 'fortran', 'torch', 'jax'):
         for _ in range(4 if tier == 'quick' else 60):
             cases.append({'family': 'backends', 'cseed': rnd.randrange(1 << 30), 'mode': rnd.choice(['euler', 'heun']), 'backend': b})
+    # an (N,n) array for n addressed nodes compiled WITHOUT vectorization (recorded finding)
+    fam = 'probe:multi_column_input_not_vectorized' if 'multi_column_input_not_vectorized' in open_risks(PID) else 'main'
+    for _ in range(6 if tier == 'quick' else 60):
+        cases.append({'family': fam, 'cseed': rnd.randrange(1 << 30), 'mode': rnd.choice(['euler', 'scipy_run']),
+                      'want': 'multi_column_input_not_vectorized'})
     return cases
 
 
@@ -53,7 +58,7 @@ def warmup(ctx):
     import mpmath
     mpmath.mp.dps = 40
     ctx['mp'] = mpmath
-    ctx['excluded'] = open_risks('C04') | open_risks('C01') | open_risks(PID)
+    ctx['excluded'] = open_risks('C04') | open_risks('C01') | (open_risks(PID) - {'multi_column_input_not_vectorized'})
     monitors.install()
 
 
@@ -64,7 +69,7 @@ def make_case(case, ctx):
         fam = case.get('family')
         if fam == 'wide':
             vec = rnd.random() < 0.8
-        if fam == 'backends':
+        if fam == 'backends' or case.get('want') == 'multi_column_input_not_vectorized':
             vec = False
         spec, feats, risk = c04.make_spec({'cseed': rnd.randrange(1 << 30), 'family': 'wide' if fam == 'wide' else 'main'},
                                           ctx['excluded'])
@@ -93,7 +98,9 @@ def make_case(case, ctx):
             path = '/'.join(parts + [op, var])
             targets = [t for t in match_nodes(ref.node_order, parts) if (t, op, var) in ref.kind]
             shape = rnd.choice(['1d', '1d', 'col1', 'multi'])
-            if shape == 'multi' and (not vec or len(targets) < 2):
+            if case.get('want') == 'multi_column_input_not_vectorized' and len(targets) >= 2:
+                shape = 'multi'
+            elif shape == 'multi' and (not vec or len(targets) < 2):
                 shape = '1d'
             if any(p['path'] == path for p in plan_):
                 continue
@@ -110,6 +117,10 @@ def make_case(case, ctx):
             plan_.append({'path': path, 'targets': targets, 'shape': shape, 'arr': arr, 'op': op, 'var': var})
         if not plan_:
             continue
+        if case.get('want') == 'multi_column_input_not_vectorized':
+            if not any(p['shape'] == 'multi' for p in plan_):
+                continue
+            risk = sorted(set(risk) | {'multi_column_input_not_vectorized'})
         return spec, feats, risk, ref, vec, N, plan_
     raise RuntimeError('generator could not satisfy the constraints')
 
